@@ -29,7 +29,7 @@ ASSUMPTIONS = [
 def run(ctx, rep):
     rep.run(RG.rule_end_anchor, ctx, rep, "V1")
     rep.run(RG.rule_single_entry, ctx, rep, "V1", min_sites=3)
-    rep.run(RT.rule_capture_complete, ctx, rep, "V2", min_actions=26)
+    rep.run(RT.rule_capture_complete, ctx, rep, "V2", min_actions=20)
     rep.run(RT.rule_no_phantom_read, ctx, rep, "V2")
     rep.run(RG.rule_termination, ctx, rep, "V3")
     rep.run(RF.rule_not_swallowed, ctx, rep, "V4", min_try=3)
